@@ -9,6 +9,7 @@
 From Coq Require Import NArith ZArith List Bool.
 From ST Require Import Base.Outcome Base.Units Utf.Spec Utf.Tokens Utf.Model Utf.ProofsC01 Utf.ProofsC03 Utf.ApiCoverage.
 From ST Require Utf.LeafBridge Gen.Leaf.
+From ST Require Utf.LoopBridge.
 Import ListNotations.
 Local Open Scope N_scope.
 
@@ -103,3 +104,25 @@ Theorem measures_match_source : forall ch, ch < 2 ^ 32 ->
   ST.Gen.Leaf.src_utf16_measure (Z.of_N ch) = Z.of_nat (utf16_measure ch).
 Proof. exact (fun ch H => conj (ST.Utf.LeafBridge.utf8_measure_matches_source ch H) (ST.Utf.LeafBridge.utf16_measure_matches_source ch H)). Qed.
 Print Assumptions measures_match_source.
+
+(* ---- tie by translation, loops: the measuring passes utf8_measure_from_utf32, utf16_measure_from_utf32 and
+   utf8_measure_from_latin_1 (the passes that size the buffer the second pass then fills) are translated from the CURRENT
+   headers into Gen/Leaf.v (fuelled Fixpoint, pointers as array + index, size_t arithmetic modulo 2^64); on inputs of any
+   length, with enough fuel, they return the number the model passes of every theorem above return ---- *)
+Theorem measuring_loops_match_source : forall l fuel,
+  (4 * Z.of_nat (length l) < 18446744073709551616)%Z -> (length l < fuel)%nat ->
+  (all_lt 4294967296 l = true ->
+     (exists n, utf8_measure_from_utf32 (Some l) = Ok n /\
+        ST.Gen.Leaf.src_utf8_measure_from_utf32 fuel (ST.Utf.LoopBridge.arr32 l) (Z.of_nat (length l)) = Some (Z.of_nat n)) /\
+     (exists n, utf16_measure_from_utf32 (Some l) = Ok n /\
+        ST.Gen.Leaf.src_utf16_measure_from_utf32 fuel (ST.Utf.LoopBridge.arr32 l) (Z.of_nat (length l)) = Some (Z.of_nat n))) /\
+  (all_lt 256 l = true ->
+     exists n, utf8_measure_from_latin_1 (Some l) = Ok n /\
+        ST.Gen.Leaf.src_utf8_measure_from_latin_1 fuel (ST.Utf.LoopBridge.arr8s l) (Z.of_nat (length l)) = Some (Z.of_nat n)).
+Proof.
+  exact (fun l fuel Hb Hf => conj
+    (fun A => conj (ST.Utf.LoopBridge.utf8_measure_from_utf32_matches_source l fuel A Hb Hf)
+                   (ST.Utf.LoopBridge.utf16_measure_from_utf32_matches_source l fuel A Hb Hf))
+    (fun A => ST.Utf.LoopBridge.utf8_measure_from_latin_1_matches_source l fuel A Hb Hf)).
+Qed.
+Print Assumptions measuring_loops_match_source.
